@@ -595,6 +595,10 @@ func (self *ReplicationClient) sendSyncCommand() (*protobuf.SyncResponse, error)
 		self.manager.slock.logger.Infof("Replication client send start sync by aofId %s", aofId)
 	} else {
 		aofId = ""
+		// a SYNC without id is answered with a full transfer: InitSync must not take its resume branch
+		// because of a record buffer left over from an earlier, aborted attempt
+		self.aofLock = nil
+		self.recvedFiles = false
 		self.manager.slock.logger.Infof("Replication client send start sync")
 	}
 
@@ -690,10 +694,9 @@ func (self *ReplicationClient) InitSync() error {
 		return err
 	}
 
-	self.currentAofId[0], self.currentAofId[1], self.currentAofId[2], self.currentAofId[3], self.currentAofId[4], self.currentAofId[5], self.currentAofId[6], self.currentAofId[7],
-		self.currentAofId[8], self.currentAofId[9], self.currentAofId[10], self.currentAofId[11], self.currentAofId[12], self.currentAofId[13], self.currentAofId[14], self.currentAofId[15] = aofId[0], aofId[1], aofId[2], aofId[3], aofId[4], aofId[5], aofId[6], aofId[7],
-		aofId[8], aofId[9], aofId[10], aofId[11], aofId[12], aofId[13], aofId[14], aofId[15]
-	self.manager.slock.logger.Infof("Replication client start recv files util aofId %s", FormatAofId(self.currentAofId))
+	// currentAofId stays empty until the first record has arrived: the bound is the id of a record this node
+	// does not have yet, and a reconnect that names it would be answered as a resume after it
+	self.manager.slock.logger.Infof("Replication client start recv files util aofId %s", FormatAofId(aofId))
 	return self.recvFiles()
 }
 
